@@ -238,5 +238,19 @@ fn main() {
         }
         run.merge(t);
     }
+    // character sweep: every ASCII and 64 special non-ASCII characters as alternative text
+    {
+        let chars: Vec<char> = mc_core::chars::all().into_iter().filter(|c| !"{},".contains(*c)).collect();
+        run.bound(format!("character sweep: {} characters in three brace patterns x 6 names", chars.len()));
+        let mut t = Tally::new();
+        for c in chars {
+            let names: Vec<String> = vec![format!("{}", c), "b".into(), format!("a{}", c), "a".into(), format!("b{}", c), format!("a{}x", c)];
+            for p in [format!("{{{},b}}", c), format!("a{{{}}}", c), format!("{{a,b}}{}", c)] {
+                t.states += 1;
+                check(&mut t, &p, &names, true);
+            }
+        }
+        run.merge(t);
+    }
     run.finish();
 }
